@@ -1491,7 +1491,10 @@ func (fcomp *fcomp) plus(e *syntax.BinaryExpr) {
 	for i := 0; i < len(args); {
 		j := i + 1
 		if code := addable(args[i].x); code != 0 {
-			for j < len(args) && addable(args[j].x) == code {
+			// Folding a run that follows another operand turns (x+a)+b
+			// into x+(a+b), so b is evaluated before x+a can fail: do that
+			// only if evaluating the operands has no effects.
+			for j < len(args) && addable(args[j].x) == code && (i == 0 || effectFree(args[j-1].x) && effectFree(args[j].x)) {
 				j++
 			}
 			if j > i+1 {
@@ -1560,6 +1563,31 @@ func addable(e syntax.Expr) rune {
 		return 't'
 	}
 	return 0
+}
+
+// effectFree reports whether e is a literal, or a list or tuple
+// display of such expressions, whose evaluation cannot fail or
+// call functions.
+func effectFree(e syntax.Expr) bool {
+	switch e := unparen(e).(type) {
+	case *syntax.Literal:
+		return true
+	case *syntax.ListExpr:
+		for _, x := range e.List {
+			if !effectFree(x) {
+				return false
+			}
+		}
+		return true
+	case *syntax.TupleExpr:
+		for _, x := range e.List {
+			if !effectFree(x) {
+				return false
+			}
+		}
+		return true
+	}
+	return false
 }
 
 // add returns an expression denoting the sum of args,
